@@ -62,6 +62,13 @@ class _TDMeta(type):
         return type.__instancecheck__(cls, o)
 
 
+def _elementwise(arr, f):
+    out = rnp.empty(arr.shape, dtype=object)
+    for idx in rnp.ndindex(arr.shape):
+        out[idx] = f(arr[idx])
+    return out
+
+
 class TD(metaclass=_TDMeta):
     """np.timedelta64 stand-in, whole seconds"""
 
@@ -108,10 +115,30 @@ class TD(metaclass=_TDMeta):
     __radd__ = __add__
 
     def __sub__(self, o):
+        if isinstance(o, rnp.ndarray):
+            return _elementwise(o, lambda x: self - x)
         b = self._o(o)
         if b is None:
             return NotImplemented
         return TD(self.sec - b)
+
+    def __rsub__(self, o):
+        if isinstance(o, rnp.ndarray):  # object arrays (pandas on object columns) defer to us (__array_priority__)
+            return _elementwise(o, lambda x: x - self)
+        b = self._o(o)
+        if b is None:
+            return NotImplemented
+        return TD(b - self.sec)
+
+    def __rfloordiv__(self, o):
+        if isinstance(o, rnp.ndarray):
+            return _elementwise(o, lambda x: x // self)
+        return NotImplemented
+
+    def __rtruediv__(self, o):
+        if isinstance(o, rnp.ndarray):
+            return _elementwise(o, lambda x: x / self)
+        return NotImplemented
 
     def __neg__(self):
         return TD(-self.sec)
@@ -243,6 +270,8 @@ class DT:
             raise Unsupported(f"datetime64 from {type(x)}")
 
     def __add__(self, o):
+        if isinstance(o, rnp.ndarray):
+            return _elementwise(o, lambda x: self + x)
         if isinstance(o, (rnp.timedelta64, _dtm.timedelta)):
             o = TD(o)
         if not isinstance(o, TD):
@@ -251,7 +280,16 @@ class DT:
 
     __radd__ = __add__
 
+    def __rsub__(self, o):
+        if isinstance(o, rnp.ndarray):  # object arrays (pandas on object columns) defer to us (__array_priority__)
+            return _elementwise(o, lambda x: x - self)
+        if isinstance(o, (rnp.datetime64, _dtm.datetime)):
+            return DT(o) - self
+        return NotImplemented
+
     def __sub__(self, o):
+        if isinstance(o, rnp.ndarray):
+            return _elementwise(o, lambda x: self - x)
         if isinstance(o, (rnp.datetime64, _dtm.datetime)):
             o = DT(o)
         if isinstance(o, DT):
@@ -522,6 +560,15 @@ class SA:
         if not k.isint:
             raise TypeError("non-integer index")
         c = k.const()
+        if getattr(E, "index_mode", "obligation") == "python":
+            # plain numpy semantics: negative indices wrap, anything else outside raises IndexError on that path
+            if c is None:
+                if not E.fork(z3.And(k.e >= -n, k.e < n)):
+                    raise IndexError(f"index out of bounds for axis with size {n}")
+                return E.concretize(k.e)
+            if not -n <= int(c) < n:
+                raise IndexError(f"index {int(c)} is out of bounds for axis with size {n}")
+            return int(c)
         if c is None:
             ok = z3.And(k.e >= 0, k.e < n)
             if E.prove(ok, "index-in-range", dict(axis_len=n), quick=True) is not True:
@@ -775,6 +822,18 @@ class SA:
 
     def astype(self, t, copy=True):
         k = _kind_of_dtype(t)
+        if k in ("M", "m") and self.kind in ("f", "i") and self.a.size and not isinstance(self.a.flat[0], (DT, TD)):
+            # numbers -> whole seconds (numpy truncates towards zero); only second resolution is modelled
+            if "[s]" not in str(t):
+                raise Unsupported(f"astype({t!r}) on numbers: only second resolution is modelled")
+            cls = DT if k == "M" else TD
+
+            def conv(x):
+                o = cls.__new__(cls)
+                o.sec = _cast_elem(x, "i")
+                return o
+
+            return SA(_map(conv, self.a), k)
         if k in ("M", "m", "O") or k == self.kind:
             return SA(self.a.copy(), self.kind if k != "O" else "O")
         return SA(_map(lambda x: _cast_elem(x, k), self.a), k)
